@@ -323,6 +323,8 @@ def main():
         "missing_basename_notes": [m.value for m in missing(base_notes)],
         "missing_layout_master_map": [m.value for m in missing(lm_map)],
         "orients": dirs, "szs": szs,
+        "basename_slide": {k.xml_value: v for k, v in base_slide},
+        "vertical_prefix": vertical_prefix,
         "unmodelled": unmodelled,
     }
     write_if_changed(os.path.join(VERIF, "coq", "gen", "c13_meta.json"), json.dumps(meta, indent=1, sort_keys=True) + "\n")
